@@ -218,6 +218,75 @@ pub fn drive_c01(a: &Args) {
             smt_jobs.push((id, smt_jobs.len()));
         }
     }
+    // several managers alive at once, used alternately (and a wrapper thread running concurrently): managers are
+    // independent - nothing may be shared between them
+    {
+        let picks: Vec<usize> = (0..fams.len()).filter(|i| i % 37 == (a.seed as usize) % 37 && !fams[*i].t.has_quot() && fams[*i].t.cost() <= COST_LIMIT).collect();
+        let bg_terms: Vec<T> = picks.iter().map(|&i| fams[i].t.smt_form()).collect();
+        let bg = std::thread::spawn(move || {
+            // concurrent use of the thread-local manager of another thread
+            let mut n = 0usize;
+            for t in bg_terms {
+                if let Ok(e) = guarded(|| t.build_smt()) {
+                    n += e.nullable as usize;
+                }
+            }
+            n
+        });
+        let (mut ma, mut mb) = (ReManager::new(), ReManager::new());
+        for pair in picks.chunks(2) {
+            if pair.len() < 2 {
+                break;
+            }
+            let (fa, fb) = (&fams[pair[0]], &fams[pair[1]]);
+            let (wa, wb) = (words_for(&fa.t, &mut rng, 2, 4), words_for(&fb.t, &mut rng, 2, 4));
+            let r = guarded(|| {
+                for c in fa.t.children() {
+                    let _ = c.build(&mut ma);
+                }
+                for c in fb.t.children() {
+                    let _ = c.build(&mut mb);
+                }
+                let ea = fa.t.build(&mut ma);
+                let eb = fb.t.build(&mut mb);
+                // the other term in the other manager as well: same construction, two stores
+                let eb_in_a = fb.t.build(&mut ma);
+                let mut ra = vec![];
+                let mut rb = vec![];
+                let mut rba = vec![];
+                for k in 0..wa.len().max(wb.len()) {
+                    if k < wa.len() {
+                        ra.push(ma.str_in_re(&SmtString::from(wa[k].clone()), ea));
+                    }
+                    if k < wb.len() {
+                        rb.push(mb.str_in_re(&SmtString::from(wb[k].clone()), eb));
+                        rba.push(ma.str_in_re(&SmtString::from(wb[k].clone()), eb_in_a));
+                    }
+                }
+                (ea.nullable, eb.nullable, eb_in_a.nullable, ra, rb, rba)
+            });
+            match r {
+                Ok((na, nb, nba, ra, rb, rba)) => {
+                    for (f, n, w, res) in [(fa, na, &wa, ra), (fb, nb, &wb, rb), (fb, nba, &wb, rba)] {
+                        let mut m = base_case(pair[0], f, &f.t);
+                        m.insert("op".into(), json!("mem"));
+                        m.insert("via".into(), json!("manager"));
+                        m.insert("interleaved".into(), json!(true));
+                        m.insert("nullable".into(), json!(n));
+                        m.insert("words".into(), json!(w));
+                        m.insert("res".into(), json!(res));
+                        mem.emit(Value::Object(m));
+                    }
+                }
+                Err(msg) => {
+                    mem.emit(panic_case(pair[0], fa, "C07:two_managers_interleaved", &msg));
+                    ma = ReManager::new();
+                    mb = ReManager::new();
+                }
+            }
+        }
+        let _ = bg.join();
+    }
     // the SMT-LIB-named wrappers: thread-local manager.  One long-lived thread (dirty manager)
     // for even jobs, a fresh thread (fresh manager) per chunk of 25 for odd jobs.
     let seed = a.seed;
